@@ -17,7 +17,7 @@ def run(m, chk):
         "the limits comparison raising ValueError dominates the computation in ImmutableKnotVector.__or__/__and__ (GATE), and the result depends on both operands (DEP-MAY). "
         "That | is the common refinement is not decided (and is false for different degrees, DESIGN §5)."
     )
-    chk.decides = ["NEG-ZERO-SLICE", "PURE", "FRESH", "GATE(limits ⇒ ValueError)", "DEP-MAY both operands", 'BOTH-MULTS (multiplicities of both operands consulted)', 'MULT-KEEP', 'SAME-INTERVAL (the interval guard is an equality, not a one-sided containment)']
+    chk.decides = ["COMMIT-LAST (a refused |= / &= leaves the receiver as it was)", "NEG-ZERO-SLICE", "PURE", "FRESH", "GATE(limits ⇒ ValueError)", "DEP-MAY both operands", 'BOTH-MULTS (multiplicities of both operands consulted)', 'MULT-KEEP', 'SAME-INTERVAL (the interval guard is an equality, not a one-sided containment)']
     chk.not_decided = ["U|V is the coarsest common refinement (wrong for different degrees — out of static reach)", "commutativity / idempotence as values"]
     for q in (KV + ".__or__", KV + ".__and__", IKV + ".__or__", IKV + ".__and__"):
         r.pure("PURE", q, ["self", "other"])
@@ -25,6 +25,9 @@ def run(m, chk):
         r.pure("PURE", q, ["other"])
     for q in (KV + ".__or__", KV + ".__and__"):
         r.fresh_result("FRESH", q, check_curve_fields=False)
+    # `|=` / `&=` refuse different intervals: nothing of the receiver is written before the last thing that can refuse
+    for q in (KV + ".__ior__", KV + ".__iand__"):
+        r.commit_last("COMMIT-LAST", q)
     for q in (IKV + ".__or__", IKV + ".__and__"):
         ctx = r.root(q)
         fi = ctx.fi
